@@ -165,10 +165,57 @@ func (rr *rulesRunner) nodeText(n ast.Node) []byte {
 
 	// Fallback to the printer.
 	var buf bytes.Buffer
-	if err := printer.Fprint(&buf, rr.ctx.Fset, n); err != nil {
-		panic(err)
-	}
+	rr.printNode(&buf, n)
 	return buf.Bytes()
+}
+
+// printNode prints n with the Go printer; the node kinds that
+// go/printer rejects (node slices, fields) are printed by parts.
+func (rr *rulesRunner) printNode(buf *bytes.Buffer, n ast.Node) {
+	switch n := n.(type) {
+	case *gogrep.NodeSlice:
+		sep := ", "
+		switch n.Kind {
+		case gogrep.StmtNodeSlice, gogrep.SpecNodeSlice, gogrep.DeclNodeSlice:
+			sep = "\n"
+		}
+		for i := 0; i < n.Len(); i++ {
+			if i != 0 {
+				buf.WriteString(sep)
+			}
+			rr.printNode(buf, n.At(i))
+		}
+	case *ast.FieldList:
+		if n.Opening.IsValid() {
+			buf.WriteByte('(')
+		}
+		for i, field := range n.List {
+			if i != 0 {
+				buf.WriteString(", ")
+			}
+			rr.printNode(buf, field)
+		}
+		if n.Closing.IsValid() {
+			buf.WriteByte(')')
+		}
+	case *ast.Field:
+		for i, name := range n.Names {
+			if i != 0 {
+				buf.WriteString(", ")
+			}
+			buf.WriteString(name.Name)
+		}
+		if n.Type != nil {
+			if len(n.Names) != 0 {
+				buf.WriteByte(' ')
+			}
+			rr.printNode(buf, n.Type)
+		}
+	default:
+		if err := printer.Fprint(buf, rr.ctx.Fset, n); err != nil {
+			panic(err)
+		}
+	}
 }
 
 func (rr *rulesRunner) fileBytes() []byte {
